@@ -104,6 +104,11 @@ class CoordinationSystem:
                 raise CheckpointError(f"G1 checkpoint failed: {checkpoint_result}")
 
             # Execute work in S phase
+            # ... unless the operation was terminated on the way here (watchdog,
+            # manual kill or shutdown, e.g. from a checkpoint condition): what it
+            # had acquired has been released then, so the work must not run
+            if self.controller.active_operations.get(operation_id) is not ctx:
+                raise CoordinationError("Operation was terminated before its work started")
             try:
                 result = work_fn()
                 ctx.set_result(result)
